@@ -69,6 +69,34 @@ CHECKS.update({
     ),
 })
 
+_DEC = "TLC evaluates TLA+ relations (NodeRel.tla over Codec.tla / StringOps.tla) on (i) every labelled node of recorded scans and (ii) grid instances whose payload it re-encodes itself"
+CHECKS.update({
+    "C13": dict(
+        level="exploration", ref="5 (C13-C15), 3.5",
+        technique="TLA+ oracle: " + _DEC + "; CodecMC.tla checks Decode(Encode(p)) = p for the encoders behind the grids",
+        text="Relation direction: every encoding.base64 / decoded.hexadecimal / encoding.hexidecimal / cipher.xor* / cipher.multibyte_xor node met in any scan must satisfy B64Decode(B64Clean(covered)), Unhex, XorKey, RepeatingXor as TLC computes them. Converse direction: payload lengths 0..40 (all paddings), acceptance-rule boundaries (22 characters, 6/7 distinct, all-hex, all-letters, slash ratio), both hex cases incl. digit-only prefixes, the four call forms with both quote styles, xor keys 0..999 in three spellings, byte arrays with repeating keys; TLC decides domain membership with BareB64Accept / HexRun and requires a node of the documented type, label, exact value and exact span.",
+        note="regular-expression languages are sampled on boundary grids, not proved; " + TRUST,
+    ),
+    "C14": dict(
+        level="exploration", ref="5 (C13-C15), 3.5",
+        technique="TLA+ oracle: " + _DEC + " (XmlRefs, Utf8, PercentDecode, Utf16ToUtf8)",
+        text="All 256 byte values as decimal and hexadecimal references, code points at every UTF-8 length boundary and the surrogate gap (0..99999 sampled quick, every 7th + random thorough), percent strings with malformed escapes, UTF-16 runs around the 7-character minimum; plus every unescape.xml / function.chr / function.unescape / codec.uft-16 node met while scanning.",
+        note="regular-expression languages are sampled on boundary grids, not proved; " + TRUST,
+    ),
+    "C15": dict(
+        level="exploration", ref="5 (C13-C15), 3.5",
+        technique="TLA+ oracle: " + _DEC + " (ParseConcat, ParseCall1, the four replace parsers, BytesReplace)",
+        text="Literal chains with every separator spelling (+ & &amp;, whitespace, VB line continuation), both quote styles, empty and bare-operator literals (outside the domain: TLC says n/a), reversal through reverse / reversed / StrReverse in any case, four replace dialects with overlapping and repeated occurrences; TLC parses the covered text with the documented grammar and recomputes the value.",
+        note="regular-expression languages are sampled on boundary grids, not proved; " + TRUST,
+    ),
+    "C16": dict(
+        level="model_checking", ref="5 (C16), 3.4, Appendix A.4",
+        technique="TLC: strip_carets and the parenthesis scanner as machines (one action per iteration, guarded reads) refine CaretSpec / CmdEnd over every string <= 6/8 over their critical alphabets (the pinned-commit variants must fail: IndexError, runaway end); ShellTrace.tla judges the real strip_carets, find_cmd_strings, find_powershell_strings call by call (CmdNode, PsEnd, EncRewrite)",
+        text="Caret removal: 19,531 strings (97,656 thorough) through the machine and through the real function. cmd commands: every string over {( ) x \" sp ^ NUL} behind four prefixes; span, repaired value and label recomputed by TLC. PowerShell: context x token x argument x closer lattice with all 14 prefixes of -encodedcommand in - and / style, quotes and carets; TLC computes the span rule and the -Command rewrite (UTF-16 of the base64 text). The same three functions are judged on every text met while scanning.",
+        note="token-locating regular expressions are taken from the module under test (not modelled); one known finding (K06, end = len - start, pinned by a repository test); " + TRUST,
+    ),
+})
+
 NOT_YET = {
     "C01": "check under construction in this session (Session.tla + drivers); not claimed until it runs clean",
     "C02": "check under construction (Layers.tla)",
